@@ -411,6 +411,7 @@ pub fn c18(out: &mut dyn Write, tier: &str, rng: &mut Rng, st: &mut Stats) {
                     let (class, stdout, _) = run_tool("random_graph_gen", &args, &[], OutArg::DashO, 60, st);
                     let edges = read_edges(&stdout, dot).map(|es| pairs_field(&es)).unwrap_or_else(|| "UNREADABLE".to_string());
                     writeln!(out, "C18|gen|{}|{}|{}|{}|{}|{}", v, e.map(|x| x.to_string()).unwrap_or_else(|| "-".into()), u as u8, complete as u8, class, edges).unwrap();
+                    if class == "ok" && edges != "UNREADABLE" { writeln!(out, "C18|text|{}|{}|{}|{}|-", if dot { "dot" } else { "csv" }, u as u8, edges, hex(&stdout)).unwrap(); }
                     st.hit(&format!("gen.exit.{}", class));
                 }
             }
@@ -451,6 +452,8 @@ pub fn c18(out: &mut dyn Write, tier: &str, rng: &mut Rng, st: &mut Stats) {
             } else { run_tool("random_graph_gen", &args, &[], OutArg::DashO, 60, st) };
             let outp = read_edges(&stdout, dot).map(|es| pairs_field(&es)).unwrap_or_else(|| "UNREADABLE".to_string());
             writeln!(out, "C18|convert|{}|{}|{}|{}", u as u8, pairs_field(&edges), class, outp).unwrap();
+            // the bytes, for the text model (Thm/C18T): the expected list is the model's conversion of this input
+            if class == "ok" && outp != "UNREADABLE" { writeln!(out, "C18|text|{}|{}|{}|{}|{}", if dot { "dot" } else { "csv" }, u as u8, outp, hex(&stdout), pairs_field(&edges)).unwrap(); }
             st.hit("convert");
         } else {
             // colouring problems are about simple graphs: no self-loops
@@ -462,6 +465,7 @@ pub fn c18(out: &mut dyn Write, tier: &str, rng: &mut Rng, st: &mut Stats) {
             let (class, stdout, _) = run_tool("random_graph_gen", &args, &[], OutArg::DashO, 60, st);
             let outp = read_edges(&stdout, false).map(|es| pairs_field(&es)).unwrap_or_else(|| "UNREADABLE".to_string());
             writeln!(out, "C18|colors|{}|{}|{}|{}", kcol, pairs_field(&simple), class, outp).unwrap();
+            if class == "ok" && outp != "UNREADABLE" { writeln!(out, "C18|text|csv|0|{}|{}|-", outp, hex(&stdout)).unwrap(); }
             st.hit("colors");
         }
     }
